@@ -111,6 +111,12 @@ MUTANTS = [
     ("a4_identify_in_district", "catch", "Alg 4 line 4: IDENTIFY told that the input district is `district` itself",
      "                input_district=domain_graph_district,",
      "                input_district=frozenset(district),"),
+    ("a4_tnode_any_to_all", "catch", "Alg 4: a district is refused only when ALL its members carry a selection node",
+     "    return not any(transport_variable(v) in domain_graph.nodes() for v in district)",
+     "    return not all(transport_variable(v) in domain_graph.nodes() for v in district)"),
+    ("a4_policy_whole_district", "catch", "Alg 4: a district is refused only when ALL its members are policy variables",
+     "    return len(set(district).intersection(interventions)) == 0",
+     "    return not set(district) <= set(interventions)"),
     ("a4_identify_whole_district", "catch", "Alg 4 line 4: IDENTIFY asked for Q[B_i] (the domain-graph district) instead of Q[C_i]",
      "                input_variables=frozenset(district),",
      "                input_variables=domain_graph_district,"),
@@ -401,9 +407,16 @@ def main():
     ap.add_argument("--json", default="")
     ap.add_argument("--timeout", type=int, default=900)
     ap.add_argument("--list", action="store_true")
+    ap.add_argument("--copy", action="store_true",
+                    help="mutate a temporary copy (git archive HEAD) of $Y0_REPO instead of the worktree (parallel runs)")
     args = ap.parse_args()
     repo = Path(os.environ.get("Y0_REPO", "")).resolve()
-    if not os.environ.get("Y0_REPO") or not (repo / API).exists():
+    if args.copy:
+        tmp = Path(tempfile.mkdtemp(prefix="c09mut_repo_"))
+        subprocess.run(f"git -C {repo} archive HEAD | tar -x -C {tmp}", shell=True, check=True)
+        subprocess.run("git init -q . && git add -A && git -c user.name=x -c user.email=x@x commit -qm copy", shell=True, cwd=tmp, check=True)
+        repo = tmp
+    if not os.environ.get("Y0_REPO") or not (repo / API).exists():  # noqa: SIM102
         raise SystemExit("set Y0_REPO to the y0 worktree to mutate")
     if str(repo) in ("/repo",) or str(repo).startswith("/verif"):
         raise SystemExit("refusing to mutate the shared checkout")
